@@ -32,4 +32,6 @@ def domain_iter_report():
 
 
 def run(tier):
-    return deductive.verify_module('factor', nproc=14) + [deductive.lemma_report(), domain_iter_report()]
+    from ..contracts import cvec
+    # "collections of factors combine clique by clique": CliqueVector arithmetic in the one-key view, combine by site contracts
+    return deductive.verify_module('factor', nproc=14) + [deductive.lemma_report(), domain_iter_report()] + cvec.reports()
